@@ -8,7 +8,8 @@
    decoders' totality runs.  What the code must do with each of them is decided by
    EncodingTrace from the recorded outcome.  One initial state per schema.          *)
 EXTENDS EncodingSets, Json, SequencesExt
-CONSTANTS Sets, MutMax, ExhMax, RandPer, Fuzz, MutAll   \* MutAll = FALSE: plain-JSON and XML single-point mutants of the largest full tree only
+CONSTANTS Sets, MutMax, ExhMax, RandPer, Fuzz, MutAll, Sizes, SizesMany, ManyMin   \* Sizes / SizesMany: entries per collection in the sized trees of schemas with < / >= ManyMin items;
+  \* MutAll = FALSE: plain-JSON and XML single-point mutants of the largest full tree only
 VARIABLES si, done
 RECURSIVE NameOf(_, _)
 NameOf(S, i) == IF i > NMenu THEN "" ELSE (IF i \in S THEN "_" \o ToString(i) ELSE "") \o NameOf(S, i + 1)
@@ -30,6 +31,12 @@ TreeLines(S) ==
   IF Cardinality(S) <= ExhMax
   THEN SetToSeq({[kind |-> "tree", t |-> t] : t \in Trees(S, Cardinality(S) = 1)})
   ELSE [i \in 1..RandPer |-> [kind |-> "tree", t |-> RandTree(S)]]
+\* sized trees: every collection with n entries, three fixed arrangements of the children and a seeded random one;
+\* for the schema-order arrangement also the XML document with the entries interleaved with their siblings
+SizesOf(S) == IF Cardinality(S) >= ManyMin THEN SizesMany ELSE Sizes
+SizedLines(S) == SetToSeq({[kind |-> "tree", t |-> t] : t \in SizedTrees(S, SizesOf(S), {1, 2, 3, 4})})
+RiffleLines(S) == SetToSeq({[kind |-> "mut", enc |-> "xml", toks |-> << >>, xtoks |-> XToks(XRiffle(EncX(Schema(S), t)))]
+                              : t \in SizedTrees(S, SizesOf(S), {1, 4})})
 MutLines(S) ==
   IF Cardinality(S) > MutMax THEN << >>
   ELSE LET sn == Schema(S) IN
@@ -51,5 +58,5 @@ FuzzLines ==
 GInit == si \in Sets \cup (IF Fuzz THEN {{}} ELSE {}) /\ done = FALSE
 GNext == /\ ~done /\ done' = TRUE /\ UNCHANGED si
          /\ IF si = {} THEN ndJsonSerialize("fuzz.ndjson", FuzzLines)
-            ELSE ndJsonSerialize("vec" \o NameOf(si, 1) \o ".ndjson", <<SchemaLine(si)>> \o TreeLines(si) \o MutLines(si))
+            ELSE ndJsonSerialize("vec" \o NameOf(si, 1) \o ".ndjson", <<SchemaLine(si)>> \o TreeLines(si) \o SizedLines(si) \o MutLines(si) \o RiffleLines(si))
 =============================================================================
